@@ -43,7 +43,16 @@ def pred_sentinel(case, v):
     return isinstance(sv, (int, float)) and isinstance(dev, (int, float)) and sv > 0 and dev <= 2.5 * sv
 
 
-PREDICATES = {"sentinel_composition_in_populated_class": pred_sentinel}
+def pred_zero_table(case, v):
+    """Multicomponent model, RK4-type intermediate stage with a depleted matrix (negative driving force): the growth-rate
+    routine zeroes the interfacial-composition table although the distribution still holds particles, and the mass balance of
+    the accepted step then counts their solute as 0.  Envelope: the missing content cannot exceed the fraction held by such phases."""
+    d = v.get("data", {})
+    zv, dev = d.get("zero_vf"), d.get("dev")
+    return isinstance(zv, (int, float)) and isinstance(dev, (int, float)) and zv > 0 and dev <= 1.05 * zv
+
+
+PREDICATES = {"sentinel_composition_in_populated_class": pred_sentinel, "composition_table_zeroed_by_transient_stage": pred_zero_table}
 
 
 def clauses():
